@@ -291,6 +291,25 @@ func (e *Eng) execAssign(st *State, s *ast.AssignStmt) *State {
 			v, has := e.mapRead(st, mt, base.T, key)
 			e.assign(st, s.Lhs[0], v)
 			e.assign(st, s.Lhs[1], scalar(has, "Bool", types.Typ[types.Bool]))
+			// `v, ok := m[k]`: the presence flag is an assignment event of its own (``at `assign ok` …``, rhs0 = presence)
+			if e.con != nil && len(e.con.At) > 0 {
+				akey := "assign " + e.srcFull(s.Lhs[1])
+				if cls, ok := e.con.At[akey]; ok {
+					e.con.atUsed[akey] = true
+					env := e.specEnvFromState(st)
+					env["rhs0"] = scalar(has, "Bool", types.Typ[types.Bool])
+					env["rhsval"] = v
+					for _, cl := range cls {
+						switch cl.Kind {
+						case "requires":
+							g := e.evalSpec(st, cl.Expr, env, e.oldEnv)
+							e.oblige(st, "at", akey+" requires "+cl.Src, g.T, s.Pos())
+						case "ghost":
+							st.vars[e.ghosts[cl.Name]] = e.evalSpec(st, cl.Expr, env, e.oldEnv)
+						}
+					}
+				}
+			}
 			return st
 		case *ast.TypeAssertExpr:
 			v := e.eval(st, r.X)
